@@ -15,7 +15,7 @@ import ast
 import struct
 from fractions import Fraction
 
-from vh.translate import TranslateError, _parse
+from vh.translate import TranslateError, _parse, _class
 
 
 def _find_func(tree, name, rel):
@@ -234,4 +234,289 @@ def item_averager(repo, out):
     out.append('Definition averager_flagav_min : bool := %s.' % ('true' if quirk else 'false'))
 
 
-ITEMS = [item_weight_power_scale, item_scale_weights, item_excision, item_averager]
+# =========================================================================== round 2 items (API glue, options, defaults)
+_UINT_BITS = {'np.uint8': 8, 'np.uint16': 16, 'np.uint32': 32, 'np.uint64': 64}
+
+
+def _cmp_const(test, var, rel, what):
+    """`<var> <op> <int constant>` -> (op, constant) with op in '<', '<='."""
+    if not (isinstance(test, ast.Compare) and len(test.ops) == 1 and len(test.comparators) == 1
+            and _norm(test.left) == var and isinstance(test.ops[0], (ast.Lt, ast.LtE))):
+        raise TranslateError('%s: %s: expected `%s < c` or `%s <= c`, got %s' % (rel, what, var, var, _norm(test)))
+    c = test.comparators[0]
+    if not (isinstance(c, ast.Constant) and isinstance(c.value, int) and not isinstance(c.value, bool)):
+        raise TranslateError('%s: %s: threshold is not an integer literal' % (rel, what))
+    return ('<' if isinstance(test.ops[0], ast.Lt) else '<='), c.value
+
+
+def _defaults(fn):
+    """{argument: normalised default expression} of a FunctionDef (positional-or-keyword arguments only)."""
+    args = fn.args.args
+    defs = fn.args.defaults
+    return {a.arg: _norm(d) for a, d in zip(args[len(args) - len(defs):], defs)}
+
+
+def item_narrow(repo, out):
+    """_narrow: the kind test comes first (np.array([]) is float64: ValueError), the dtype of an empty array and the threshold table
+    (comparison operator, threshold, width) of the if-chain; `low < 0` keeps the dtype."""
+    rel = 'katdal/vis_flags_weights.py'
+    fn = _find_func(_parse(repo, rel), '_narrow', rel)
+    if [a.arg for a in fn.args.args] != ['array']:
+        raise TranslateError('%s: _narrow arguments changed' % rel)
+    body = [s for s in fn.body
+            if not (isinstance(s, ast.Expr) and isinstance(s.value, ast.Constant) and isinstance(s.value.value, str))]
+    kind = "ifarray.dtype.kindnotin['u','i']:raiseValueError('Arrayisnotintegral')"
+    norm = [_norm(s) for s in body]
+    if len(body) != 3 or norm[2] != 'returnarray.astype(dtype,copy=False)' or kind not in norm[:2]:
+        raise TranslateError('%s: _narrow is not (kind test, size/if-chain, astype): %s' % (rel, norm))
+    if norm[0] != kind:
+        raise TranslateError('%s: _narrow: the kind test is not the first statement' % rel)
+    chain = body[1]
+    if not (isinstance(chain, ast.If) and _norm(chain.test) == 'notarray.size' and len(chain.body) == 1
+            and isinstance(chain.body[0], ast.Assign) and _norm(chain.body[0].targets[0]) == 'dtype'
+            and _norm(chain.body[0].value) in _UINT_BITS):
+        raise TranslateError('%s: _narrow: `if not array.size: dtype = np.uintN` not found' % rel)
+    empty_bits = _UINT_BITS[_norm(chain.body[0].value)]
+    els = chain.orelse
+    if len(els) != 3 or _norm(els[0]) != 'low=np.min(array)' or _norm(els[1]) != 'high=np.max(array)' \
+            or not isinstance(els[2], ast.If):
+        raise TranslateError('%s: _narrow: else branch is not (low, high, if-chain)' % rel)
+    node = els[2]
+    if _norm(node.test) != 'low<0' or [_norm(s) for s in node.body] != ['dtype=array.dtype']:
+        raise TranslateError('%s: _narrow: first test is not `low < 0: dtype = array.dtype`' % rel)
+    table = []
+    while True:
+        if len(node.orelse) != 1:
+            raise TranslateError('%s: _narrow: if-chain has an unexpected else branch' % rel)
+        nxt = node.orelse[0]
+        if isinstance(nxt, ast.If):
+            op, th = _cmp_const(nxt.test, 'high', rel, '_narrow')
+            if len(nxt.body) != 1 or not isinstance(nxt.body[0], ast.Assign) or _norm(nxt.body[0].targets[0]) != 'dtype' \
+                    or _norm(nxt.body[0].value) not in _UINT_BITS:
+                raise TranslateError('%s: _narrow: branch of `high %s %d` is not `dtype = np.uintN`' % (rel, op, th))
+            table.append((op == '<=', th, _UINT_BITS[_norm(nxt.body[0].value)]))
+            node = nxt
+        elif _norm(nxt) == 'dtype=array.dtype':
+            break
+        else:
+            raise TranslateError('%s: _narrow: final else is not `dtype = array.dtype`' % rel)
+    out.append('(* katdal/vis_flags_weights.py _narrow: (is `<=`, threshold, bits of the unsigned type) *)')
+    out.append('Definition narrow_empty_bits : Z := (%d)%%Z.' % empty_bits)
+    out.append('Definition narrow_table : list (bool * Z * Z) := [%s].'
+               % '; '.join('(%s, (%d)%%Z, (%d)%%Z)' % ('true' if le else 'false', th, b) for le, th, b in table))
+
+
+def item_vfw_options(repo, out):
+    """ChunkStoreVisFlagsWeights.__init__: default arguments, the order of (Van Vleck, stored weights, corrprods test),
+    the van_vleck strings, what a lost chunk of vis / weights / weights_channel is replaced with; weight_power_scale's
+    default direction; the shape tests of VisFlagsWeights.__init__."""
+    rel = 'katdal/vis_flags_weights.py'
+    tree = _parse(repo, rel)
+    cls = _class(tree, 'ChunkStoreVisFlagsWeights', rel)
+    init = [n for n in cls.body if isinstance(n, ast.FunctionDef) and n.name == '__init__']
+    if len(init) != 1:
+        raise TranslateError('%s: ChunkStoreVisFlagsWeights.__init__ not found' % rel)
+    init = init[0]
+    if [a.arg for a in init.args.args] != ['self', 'store', 'chunk_info', 'corrprods', 'stored_weights_are_scaled',
+                                           'van_vleck', 'preselect_index']:
+        raise TranslateError('%s: ChunkStoreVisFlagsWeights.__init__ arguments changed' % rel)
+    d = _defaults(init)
+    if d.get('corrprods') != 'None' or d.get('preselect_index') != '()':
+        raise TranslateError('%s: defaults of corrprods / preselect_index are not None / ()' % rel)
+    if d.get('stored_weights_are_scaled') not in ('True', 'False'):
+        raise TranslateError('%s: default of stored_weights_are_scaled is not a bool literal' % rel)
+    if d.get('van_vleck') not in ("'off'", "'autocorr'"):
+        raise TranslateError("%s: default of van_vleck is not 'off' / 'autocorr'" % rel)
+    body = _stmts(init.body)
+    vv = ("ifvan_vleck=='autocorr':vis=correct_autocorr_quantisation(vis,corrprods)elifvan_vleck!='off':"
+          "raiseValueError(")
+    iv = [i for i, s in enumerate(body) if s.startswith(vv)]
+    isw = [i for i, s in enumerate(body) if s.startswith('stored_weights=')]
+    icp = [i for i, s in enumerate(body) if s.startswith('ifcorrprodsisnotNone:')]
+    ivis = [i for i, s in enumerate(body) if s == "vis=darray['correlator_data']"]
+    if not (len(iv) == len(isw) == len(icp) == len(ivis) == 1 and ivis[0] < iv[0] < isw[0] < icp[0]):
+        raise TranslateError('%s: __init__ is not (vis, Van Vleck choice, stored weights, corrprods choice) in that order' % rel)
+    if body[-1] != 'VisFlagsWeights.__init__(self,vis,flags,weights,unscaled_weights)':
+        raise TranslateError('%s: __init__ does not end with VisFlagsWeights.__init__(self, vis, flags, weights, unscaled_weights)' % rel)
+    # lost chunks
+    loop = ("forarray,infoinchunk_info.items():array_name=store.join(info['prefix'],array)"
+            "errors=DATA_LOSTifarray=='flags'else'placeholder'"
+            "darray[array]=store.get_dask_array(array_name,info['chunks'],info['dtype'],index=preselect_index,errors=errors)")
+    if loop not in body:
+        raise TranslateError('%s: the loop creating the dask arrays (placeholder for lost chunks, preselect index) changed' % rel)
+    fill = [s for s in body if s.startswith("forarray_name,arrayindarray.items():ifarray_name=='flags':continuenew_name='filled-'")]
+    if len(fill) != 1 or '_default_zero,(array.name,)+index' not in fill[0] \
+            or 'darray[array_name]=da.Array(dsk,new_name,chunks=array.chunks,shape=array.shape,dtype=array.dtype)' not in fill[0]:
+        raise TranslateError('%s: the loop filling lost chunks of the non-flag arrays changed' % rel)
+    dz = _find_func(tree, '_default_zero', rel)
+    dzb = _stmts(dz.body)
+    fillv = None
+    for name, val in (('np.zeros', 0), ('np.ones', 1)):
+        if dzb == ['ifisinstance(array,PlaceholderChunk):return%s(array.shape,array.dtype)else:returnarray' % name]:
+            fillv = val
+    if fillv is None:
+        raise TranslateError('%s: _default_zero is not `zeros/ones(array.shape, array.dtype) if placeholder else array`: %s' % (rel, dzb))
+    # VisFlagsWeights.__init__ shape tests
+    base = _class(tree, 'VisFlagsWeights', rel)
+    binit = [n for n in base.body if isinstance(n, ast.FunctionDef) and n.name == '__init__']
+    if len(binit) != 1:
+        raise TranslateError('%s: VisFlagsWeights.__init__ not found' % rel)
+    bb = _stmts(binit[0].body)
+    for w in ['ifnotvis.shape==flags.shape==weights.shape:', 'ifunscaled_weightsisnotNoneandunscaled_weights.shape!=vis.shape:',
+              'self.vis=vis', 'self.weights=weights', 'self.unscaled_weights=unscaled_weights']:
+        if not any(s.startswith(w) for s in bb):
+            raise TranslateError('%s: VisFlagsWeights.__init__ statement not found: %s' % (rel, w))
+    # weight_power_scale defaults
+    k = _find_func(tree, 'weight_power_scale', rel)
+    kd = _defaults(k)
+    if kd.get('out') != 'None' or kd.get('divide') not in ('True', 'False'):
+        raise TranslateError('%s: weight_power_scale defaults are not out=None, divide=<bool>' % rel)
+    cq = _find_func(tree, 'correct_autocorr_quantisation', rel)
+    cqb = _stmts(cq.body)
+    if _defaults(cq) != {'levels': 'None'} or cqb[0] != 'assertlen(corrprods)==vis.shape[2]' \
+            or 'iflevelsisNone:levels=np.arange(-127.0,128.0)' not in cqb:
+        raise TranslateError('%s: correct_autocorr_quantisation: assertion / default levels changed' % rel)
+    out.append('(* katdal/vis_flags_weights.py ChunkStoreVisFlagsWeights.__init__ / weight_power_scale defaults *)')
+    out.append('Definition vfw_default_scaled : bool := %s.' % ('true' if d['stored_weights_are_scaled'] == 'True' else 'false'))
+    out.append('Definition vfw_default_van_vleck : Z := (%d)%%Z.' % (0 if d['van_vleck'] == "'off'" else 1))
+    out.append('Definition vfw_lost_fill : Z := (%d)%%Z.' % fillv)
+    out.append('Definition weights_default_divide : bool := %s.' % ('true' if kd['divide'] == 'True' else 'false'))
+
+
+def item_excision_api(repo, out):
+    """visdatav4: _cbf_attrs (the chain of look-ups), the exceptions that make a data set "lite", when the excision
+    indexer is None, the order of the two transforms and the error of the properties."""
+    rel = 'katdal/visdatav4.py'
+    tree = _parse(repo, rel)
+    fn = _find_func(tree, '_cbf_attrs', rel)
+    body = _stmts(fn.body)
+    want = ["correlator_stream=attrs['src_streams'][0]", "int_time=attrs[correlator_stream+'_int_time']",
+            "n_accs=attrs[correlator_stream+'_n_accs']", "f_engine_stream=attrs[correlator_stream+'_src_streams'][0]",
+            "f_engine_instrument=attrs[f_engine_stream+'_instrument_dev_name']",
+            "scale_factor_timestamp=attrs[f_engine_instrument+'_scale_factor_timestamp']",
+            'return(int_time,n_accs,f_engine_stream,scale_factor_timestamp)']
+    if body != want:
+        raise TranslateError('%s: _cbf_attrs is not the expected chain of look-ups: %s' % (rel, body))
+    src = _norm(tree)
+    for w in ['try:self.cbf_dump_period,cbf_n_accs,f_engine_stream,scale_factor_timestamp=_cbf_attrs(attrs)'
+              'except(KeyError,IndexError):self.cbf_dump_period=self.accumulations_per_dump=None',
+              'ifunscaled_weightsisNoneorself.accumulations_per_dumpisNone:self._excision=Noneelse:',
+              "ifself._excisionisNone:raiseValueError(", "ifself._weightsisNone:raiseValueError(",
+              'returnself._excision', 'returnself._weights',
+              'self._weights=DaskLazyIndexer(self._corrected.weights,stage1)',
+              "self.dump_period=attrs['int_time']"]:
+        if w not in src:
+            raise TranslateError('%s: statement not found: %s' % (rel, w))
+    out.append('(* katdal/visdatav4.py _cbf_attrs: look-ups that must all succeed (src_streams[0], int_time, n_accs, '
+               'src_streams[0] of the correlator, instrument_dev_name, scale_factor_timestamp) *)')
+    out.append('Definition excision_api_shapes_checked : bool := true.')
+
+
+def item_averager_blocks(repo, out):
+    """averager: default factors, the baseline block size, where the accumulators are initialised, their initial
+    values, and the block loop."""
+    rel = 'katdal/averager.py'
+    tree = _parse(repo, rel)
+    fn = _find_func(tree, 'average_visibilities', rel)
+    if [a.arg for a in fn.args.args] != ['vis', 'weight', 'flag', 'timestamps', 'channel_freqs', 'timeav', 'chanav', 'flagav']:
+        raise TranslateError('%s: average_visibilities arguments changed' % rel)
+    d = _defaults(fn)
+    try:
+        dt, dc = int(d['timeav']), int(d['chanav'])
+    except (KeyError, ValueError):
+        raise TranslateError('%s: defaults of timeav / chanav are not integer literals' % rel)
+    if dt < 0 or dc < 0 or d.get('flagav') not in ('True', 'False'):
+        raise TranslateError('%s: defaults of timeav / chanav / flagav out of the modelled range' % rel)
+    k = _find_func(tree, '_average_visibilities', rel)
+    bl = [s for s in k.body if isinstance(s, ast.Assign) and _norm(s.targets[0]) == 'bl_step']
+    if len(bl) != 1 or not (isinstance(bl[0].value, ast.Constant) and isinstance(bl[0].value.value, int)
+                            and not isinstance(bl[0].value.value, bool) and bl[0].value.value >= 0):
+        raise TranslateError('%s: `bl_step = <non-negative int literal>` not found exactly once' % rel)
+    bl_step = bl[0].value.value
+    # loop nest: for av_c in prange: ...; for av_t: tstart; for bstart in range(0, n_bl, bl_step): bstop; init; for t ...; for b ...
+    lc = [s for s in k.body if isinstance(s, ast.For)]
+    if len(lc) != 1 or _norm(lc[0].target) != 'av_c' or _norm(lc[0].iter) != 'numba.prange(0,av_n_chans)':
+        raise TranslateError('%s: outer loop is not `for av_c in numba.prange(0, av_n_chans)`' % rel)
+    lt = [s for s in lc[0].body if isinstance(s, ast.For)]
+    if len(lt) != 1 or _norm(lt[0].target) != 'av_t' or _norm(lt[0].iter) != 'range(0,av_n_time)':
+        raise TranslateError('%s: second loop is not `for av_t in range(0, av_n_time)`' % rel)
+    pre_c = [_norm(s) for s in lc[0].body if not isinstance(s, ast.For)]
+    alloc = ['vis_sum=np.empty(bl_step,vis.dtype)', 'vis_weight_sum=np.empty(bl_step,vis.dtype)',
+             'weight_sum=np.empty(bl_step,weight.dtype)', 'flag_any=np.empty(bl_step,dtype=np.bool_)',
+             'flag_all=np.empty(bl_step,dtype=np.bool_)']
+    if pre_c != ['cstart=av_c*chanav'] + alloc:
+        raise TranslateError('%s: per-channel-bin prologue (cstart, accumulator buffers of bl_step cells) changed: %s' % (rel, pre_c))
+    lb = [s for s in lt[0].body if isinstance(s, ast.For)]
+    pre_t = [_norm(s) for s in lt[0].body if not isinstance(s, ast.For)]
+    if len(lb) != 1 or _norm(lb[0].target) != 'bstart' or _norm(lb[0].iter) != 'range(0,n_bl,bl_step)':
+        raise TranslateError('%s: block loop is not `for bstart in range(0, n_bl, bl_step)`' % rel)
+    init = ['vis_sum[:]=0', 'vis_weight_sum[:]=0', 'weight_sum[:]=0', 'flag_any[:]=False', 'flag_all[:]=True']
+    blk = [_norm(s) for s in lb[0].body if not isinstance(s, ast.For)]
+    inner = [s for s in lb[0].body if isinstance(s, ast.For)]
+    if blk == ['bstop=min(n_bl,bstart+bl_step)'] + init and pre_t == ['tstart=av_t*timeav']:
+        per_block = True
+    elif blk == ['bstop=min(n_bl,bstart+bl_step)'] and pre_t == ['tstart=av_t*timeav'] + init:
+        per_block = False
+    else:
+        raise TranslateError('%s: accumulator initialisation not of a known shape: per-bin %s, per-block %s' % (rel, pre_t, blk))
+    # the statements order inside the block: bstop, (init), accumulation loop, finishing loop
+    kinds = ['for' if isinstance(s, ast.For) else 'stmt' for s in lb[0].body]
+    if kinds != ['stmt'] * len(blk) + ['for', 'for'] or len(inner) != 2:
+        raise TranslateError('%s: block body is not (bstop, init, accumulation loop, finishing loop)' % rel)
+    acc, fin = inner
+    if _norm(acc.target) != 't' or _norm(acc.iter) != 'range(tstart,tstart+timeav)' \
+            or _norm(fin.target) != 'b' or _norm(fin.iter) != 'range(bstop-bstart)':
+        raise TranslateError('%s: accumulation / finishing loop headers changed' % rel)
+    src = _norm(acc)
+    for w in ['forcinrange(cstart,cstart+chanav):forbinrange(bstop-bstart):b1=b+bstartv=vis[t,c,b1]w=weight[t,c,b1]'
+              'f=flag_u8[t,c,b1]!=0iff:w=wzero']:
+        if w not in src:
+            raise TranslateError('%s: accumulation loop body changed' % rel)
+    if not _norm(fin).startswith('forbinrange(bstop-bstart):b1=b+bstartw=np.float32(weight_sum[b])'):
+        raise TranslateError('%s: finishing loop body changed' % rel)
+    out.append('(* katdal/averager.py defaults and baseline blocking *)')
+    out.append('Definition averager_default_timeav : nat := %d%%nat.' % dt)
+    out.append('Definition averager_default_chanav : nat := %d%%nat.' % dc)
+    out.append('Definition averager_default_flagav : bool := %s.' % ('true' if d['flagav'] == 'True' else 'false'))
+    out.append('Definition averager_bl_step : nat := %d%%nat.' % bl_step)
+    out.append('Definition averager_init_per_block : bool := %s.' % ('true' if per_block else 'false'))
+
+
+def item_v3_weights(repo, out):
+    """h5datav3: the weights transform, the value of the dummy data sets, the parsing of the weight selection."""
+    rel = 'katdal/h5datav3.py'
+    tree = _parse(repo, rel)
+    src = _norm(tree)
+    vals = {}
+    for nm, key in (('weights', "dummy_dataset('dummy_weights',shape=self._vis.shape[:-1],dtype=np.float32,value="),
+                    ('weights_channel', "dummy_dataset('dummy_weights_channel',shape=self._vis.shape[:-2],dtype=np.float32,value=")):
+        pre = "self._%s=data_group['%s']if'%s'indata_groupelse%s" % (nm, nm, nm, key)
+        i = src.find(pre)
+        if i < 0 or src.find(pre, i + 1) >= 0:
+            raise TranslateError('%s: `self._%s = data_group[...] if present else dummy_dataset(...)` not found exactly once' % (rel, nm))
+        j = src.index(')', i + len(pre))
+        try:
+            vals[nm] = Fraction(float(src[i + len(pre):j]))
+        except ValueError:
+            raise TranslateError('%s: dummy value of %s is not a float literal' % (rel, nm))
+    for w in ['returnlo_res_weights*hi_res_weightsifweights_selectelsenp.ones_like(lo_res_weights,dtype=np.float32)',
+              'weights_select=self._weights_select', 'hi_res_weights=weights_channel[keep]',
+              'iflo_res_weights.ndim>hi_res_weights.ndim:hi_res_weights=hi_res_weights[...,np.newaxis]',
+              "extract=LazyTransform('extract_weights',transform,dtype=np.float32)",
+              'indexer=self._vislike_indexer(self._weights,extract)',
+              'weights_channel=self._vislike_indexer(self._weights_channel,dims=2)',
+              "self._weights_select=[]self._weights_keep='all'",
+              'names=_selection_to_list(names,all=known_weights)selection=[]fornameinnames:'
+              'try:selection.append(known_weights.index(name))exceptValueError:',
+              'self._weights_select=selection']:
+        if w not in src:
+            raise TranslateError('%s: statement not found: %s' % (rel, w))
+    out.append('(* katdal/h5datav3.py weights: values of the dummy data sets *)')
+    for nm in ('weights', 'weights_channel'):
+        out.append('Definition v3_dummy_%s_num : Z := (%d)%%Z.' % (nm, vals[nm].numerator))
+        out.append('Definition v3_dummy_%s_den : positive := %d%%positive.' % (nm, vals[nm].denominator))
+    out.append('Definition v3_unselected_num : Z := (1)%Z.')
+
+
+ITEMS = [item_weight_power_scale, item_scale_weights, item_excision, item_averager,
+         item_narrow, item_vfw_options, item_excision_api, item_averager_blocks, item_v3_weights]
